@@ -12,7 +12,7 @@
    the known reachable ones (findings D8, D12, D13, D21) are listed in known_findings.json. *)
 From Coq Require Import List NArith ZArith Bool.
 From Gemato Require Import Py.PyStr Py.PyPath Py.PyTime Gen.Tables Model.Entry Model.Text Model.Hash Model.FS Model.Verify.
-From Gemato Require Import Model.OpenPGP Model.Loader.
+From Gemato Require Import Model.OpenPGP Model.Loader Exec.Oracles.
 From Gemato Require Import Proofs.Reject Proofs.NoInternal Proofs.ReadSafe.
 Import ListNotations.
 Open Scope N_scope.
@@ -53,3 +53,23 @@ Print Assumptions C18_single_file_check_never_internal.
 (* non-vacuity: two IGNORE entries of one path (the D4 input) meet the premises *)
 Example C18_duplicate_ignore : verify_entry_compatibility (EIgn [102;111;111]) (EIgn [102;111;111]) = Ok (true, []).
 Proof. vm_compute. reflexivity. Qed.
+
+(* non-vacuity of C18_reading_never_internal: a table-backed hash library, a fault-free world holding a Manifest ('DATA a 1')
+   and the file a; the loader is constructed, the directory verifies, an entry is looked up - the run ends with Ok *)
+Definition ex_world : FS.world :=
+  FS.mk_world 1 [(1, FS.IDir 7 1 [([77;97;110;105;102;101;115;116], FS.TIno 2); ([97], FS.TIno 3)]);
+                 (2, FS.IFile 7 0 9 [68;65;84;65;32;97;32;49;10]);
+                 (3, FS.IFile 7 0 1 [120])] [] [].
+Definition ex_run :=
+  l <- new_loader (table_hashlib []) (fun _ _ => Err XBadCompressed) (fun _ => Err (XPGP PGPNoImpl)) ex_world
+         [77;97;110;105;102;101;115;116] (mk_opts None false None [] PDefault None None false) false true ;;
+  run_rops (table_hashlib []) (fun _ _ => Err XBadCompressed) (fun _ => Err (XPGP PGPNoImpl)) ex_world l
+           [RVerifyDir [] PolThrow None; RFind [97]].
+Example C18_reading_premises_satisfiable :
+  (forall s, safe (Hash.hl_hexdigest (table_hashlib []) s)) /\ sane_faults ex_world /\ exists l, ex_run = Ok l.
+Proof.
+  split; [|split].
+  - intros [n c] e H k Hk. cbn in H. inversion H; subst. discriminate.
+  - intros i e H. discriminate.
+  - vm_compute. eexists. reflexivity.
+Qed.
